@@ -29,6 +29,18 @@ const PCH: [char; 5] = ['c', 'q', 'r', 's', 'h'];
 const PCOQ: [&str; 5] = ["PCache", "PQuery", "PRecovery", "PSchema", "PShared"];
 /// set while the scheduling thread calls BudgetStats (which panics when the counters' sum overflows)
 static EXPECT_PANIC: std::sync::atomic::AtomicBool = std::sync::atomic::AtomicBool::new(false);
+/// Waits that only end when the implementation deviates from what the harness expects (a thread
+/// that should arrive does not): each costs `patience_ms`.  The first few are long (a loaded
+/// machine is not a deviation), after that the tree evidently deviates and the waits are short,
+/// so a run stays bounded whatever the code does.  A wait that runs out is an observation
+/// (blocked / nobody resumed), never a hang.
+static ANOMALIES: std::sync::atomic::AtomicU32 = std::sync::atomic::AtomicU32::new(0);
+fn patience_ms() -> u64 {
+    if ANOMALIES.load(std::sync::atomic::Ordering::Relaxed) < 3 { 10_000 } else { 250 }
+}
+fn anomaly() {
+    ANOMALIES.fetch_add(1, std::sync::atomic::Ordering::Relaxed);
+}
 const K: u64 = 1024;
 const M: u64 = 1024 * 1024;
 
@@ -126,8 +138,9 @@ fn run_case(limreq: u64, progs: &[Vec<Op>], sched: &[usize]) -> Run {
         if code == 2 {
             let plausible = last_code[t] == 99 && (0..n).any(|u| u != t && inside(last_code[u]));
             if !plausible {
-                if let Some(c) = wait_arrival(t, 30_000) {
-                    code = c;
+                match wait_arrival(t, patience_ms()) {
+                    Some(c) => code = c,
+                    None => anomaly(),
                 }
             }
             if code == 2 {
@@ -142,7 +155,7 @@ fn run_case(limreq: u64, progs: &[Vec<Op>], sched: &[usize]) -> Run {
         let mut resumed: i64 = -1;
         let mut resumed_site: i64 = 0;
         if !blocked.is_empty() && code != 2 {
-            let max_ms = if left { 30_000 } else { 0 };
+            let max_ms = if left { patience_ms() } else { 0 };
             let deadline = std::time::Instant::now() + std::time::Duration::from_millis(max_ms);
             'w: loop {
                 for (i, &u) in blocked.iter().enumerate() {
@@ -160,6 +173,8 @@ fn run_case(limreq: u64, progs: &[Vec<Op>], sched: &[usize]) -> Run {
             }
             if resumed >= 0 {
                 last_code[resumed as usize] = resumed_site;
+            } else if left {
+                anomaly();
             }
         }
         // code + 1000 * (resumed thread + 1) [+ 500 if it did not resume at site 100]
@@ -180,7 +195,7 @@ fn run_case(limreq: u64, progs: &[Vec<Op>], sched: &[usize]) -> Run {
     }
     // run everybody to completion, round robin; these steps are part of the executed schedule
     let mut guard = 0;
-    let mut idle_rounds = 0;
+    let mut idle_since: Option<std::time::Instant> = None;
     while !s.all_finished() {
         let mut progressed = false;
         for id in 0..n {
@@ -192,19 +207,27 @@ fn run_case(limreq: u64, progs: &[Vec<Op>], sched: &[usize]) -> Run {
                 guard += 1;
             }
         }
-        if !progressed {
-            idle_rounds += 1;
-            std::thread::sleep(std::time::Duration::from_millis(20));
+        if progressed {
+            idle_since = None;
         } else {
-            idle_rounds = 0;
+            let t0 = *idle_since.get_or_insert_with(std::time::Instant::now);
+            if t0.elapsed() >= std::time::Duration::from_millis(patience_ms()) {
+                // nobody can move: the implementation is stuck; what was observed so far is the case
+                anomaly();
+                break;
+            }
+            std::thread::sleep(std::time::Duration::from_millis(5));
         }
-        if guard > 5000 || idle_rounds > 200 {
-            eprintln!("c39: threads do not finish: {} states {:?} obs {:?}", replay_line(limreq, progs, sched), (0..n).map(|i| s.state(i)).collect::<Vec<_>>(), obs.iter().take(24).map(|o| (o.code, o.done)).collect::<Vec<_>>());
-            std::process::exit(3);
+        if guard > 5000 {
+            anomaly();
+            break;
         }
     }
-    for h in hs {
-        let _ = h.join();
+    for (id, h) in hs.into_iter().enumerate() {
+        // a thread that is stuck in the implementation is left behind (it holds only its own Arcs)
+        if s.state(id) == TState::Finished {
+            let _ = h.join();
+        }
     }
     Scheduler::uninstall();
     let lim = b.total_limit() as u64;
@@ -503,13 +526,34 @@ fn enumerated(quick: bool) -> Vec<CaseIn> {
     let every = |v: Vec<Vec<usize>>, stride: usize| -> Vec<Vec<usize>> {
         if quick { v.into_iter().step_by(stride).collect() } else { v }
     };
+    // one allocation that fits its pool's reserve against one that fills the shared part: together
+    // they exceed the limit, each alone fits (the reserves only fit when nobody overdraws the rest)
+    let rvs: Vec<(usize, u64, usize, u64)> = vec![
+        (h, 3840 * K, c, 512 * K), (h, 4 * M, s, 1), (h, 3968 * K, q, 256 * K), (r, 200 * K, h, 3900 * K),
+    ];
+    for (i, (p0, n0, p1, n1)) in rvs.iter().enumerate() {
+        if quick && i >= 2 { break; }
+        let progs = vec![vec![Op::A(*p0, *n0)], vec![Op::A(*p1, *n1)]];
+        for sc in all_schedules(&progs) {
+            out.push((lim, progs.clone(), sc, "enum_reserve_vs_shared"));
+        }
+    }
+    // ... and two in-reserve allocations in different pools racing for the last room
+    let two: Vec<(u64, usize, u64, usize, u64)> = vec![(7 * M / 2, c, 512 * K, q, 256 * K), (3840 * K, s, 128 * K, r, 256 * K)];
+    for (i, (big, p0, n0, p1, n1)) in two.iter().enumerate() {
+        if quick && i >= 1 { break; }
+        let progs = vec![vec![Op::A(h, *big), Op::A(*p0, *n0)], vec![Op::A(*p1, *n1)]];
+        for sc in every(all_schedules(&progs), 9) {
+            out.push((lim, progs.clone(), sc, "enum_two_reserves"));
+        }
+    }
     // two threads, one allocate each: all interleavings (252 with the hook site 99)
     let cross: Vec<(usize, u64, usize, u64)> = vec![
         (c, 3 * M, q, 3 * M), (c, 2 * M, h, 2 * M), (c, 2 * M, h, 2 * M + 1), (q, M, r, M), (h, 3 * M, s, 5 * M / 2),
         (q, 3 * M, h, M + 1), (c, 3456 * K, q, 640 * K), (r, 256 * K, s, 128 * K),
     ];
     for (i, (p0, n0, p1, n1)) in cross.iter().enumerate() {
-        if quick && i >= 3 { break; }
+        if quick && i >= 2 { break; }
         let progs = vec![vec![Op::A(*p0, *n0)], vec![Op::A(*p1, *n1)]];
         for sc in all_schedules(&progs) {
             out.push((lim, progs.clone(), sc, "enum_cross_pool"));
@@ -528,7 +572,7 @@ fn enumerated(quick: bool) -> Vec<CaseIn> {
     for (i, (p, big, small)) in aba.iter().enumerate() {
         if quick && i >= 2 { break; }
         let progs = vec![vec![Op::A(*p, *big)], vec![Op::A(*p, *small), Op::G(0, *p, *small), Op::A(*p, *small)]];
-        for sc in every(all_schedules(&progs), if i == 0 { 7 } else { 23 }) {
+        for sc in every(all_schedules(&progs), if i == 0 { 17 } else { 23 }) {
             out.push((lim, progs.clone(), sc, "enum_aba"));
         }
     }
@@ -537,7 +581,7 @@ fn enumerated(quick: bool) -> Vec<CaseIn> {
     for (i, (p0, n0, p1, n1)) in ar.iter().enumerate() {
         if quick && i >= 2 { break; }
         let progs = vec![vec![Op::A(*p0, *n0), Op::G(0, *p0, *n0)], vec![Op::A(*p1, *n1), Op::G(0, *p1, *n1)]];
-        for sc in every(all_schedules(&progs), 5) {
+        for sc in every(all_schedules(&progs), 7) {
             out.push((lim, progs.clone(), sc, "enum_alloc_release"));
         }
     }
@@ -580,6 +624,34 @@ fn random_case(rng: &mut Rng, thorough: bool) -> CaseIn {
         let limreq = if rng.chance(1, 6) { u64::MAX - rng.below(3) } else { limreq };
         let sc = random_schedule(rng, &progs);
         return (limreq, progs, sc, "malformed");
+    }
+    if roll < 24 {
+        // a nearly full budget (one big Shared allocation) and small allocations inside the
+        // reserves of different pools
+        let nthreads = 2 + rng.below(2) as usize;
+        let big = *rng.pick(&[7 * M / 2, 3840 * K, 3968 * K, 4 * M - 1, 4 * M, 3 * M]);
+        let mut progs: Vec<Vec<Op>> = vec![];
+        let first_pool = rng.below(4) as usize;
+        for t in 0..nthreads {
+            let pool = (first_pool + t) % 4;
+            let res = [512 * K, 256 * K, 256 * K, 128 * K][pool];
+            let small = *rng.pick(&[res, res / 2, res - 1, 1, 64 * K]);
+            let mut p = vec![];
+            if t == 0 || rng.chance(1, 5) {
+                p.push(Op::A(4, if t == 0 { big } else { 64 * K }));
+            }
+            p.push(Op::A(pool, small));
+            if p.len() == 2 && rng.chance(1, 2) {
+                p.swap(0, 1);
+            }
+            if rng.chance(1, 3) {
+                let k = p.iter().position(|o| *o == Op::A(pool, small)).unwrap_or(0);
+                p.push(Op::G(k, pool, small));
+            }
+            progs.push(p);
+        }
+        let sc = random_schedule(rng, &progs);
+        return (limreq, progs, sc, "rand_reserve_pressure");
     }
     let nthreads = if roll < 60 { 2 } else { 3 };
     let (pools, kind): (Vec<usize>, &'static str) = match rng.below(3) {
@@ -631,14 +703,28 @@ fn gen(a: &Args) {
         }
     } else {
         cases = enumerated(!a.thorough());
-        let nrand = if a.thorough() { 15_000 } else { 800 };
+        let nrand = if a.thorough() { 15_000 } else { 600 };
         for _ in 0..nrand {
             cases.push(random_case(&mut rng, a.thorough()));
         }
+        // one fixed pseudo-random order, so that a run cut short by the time cap is a sample of
+        // every family rather than a prefix of the list
+        for i in (1..cases.len()).rev() {
+            let j = rng.below(i as u64 + 1) as usize;
+            cases.swap(i, j);
+        }
     }
+    // wall-clock cap on the generated run (replays are always complete)
+    let cap_s: u64 = std::env::var("C39_GEN_CAP_S").ok().and_then(|v| v.parse().ok()).unwrap_or(if a.thorough() { 2400 } else { 240 });
+    let started = std::time::Instant::now();
+    let mut dropped = 0u64;
     let (mut over, mut overlap, mut failed_alloc, mut panics, mut retries) = (0u64, 0u64, 0u64, 0u64, 0u64);
     let mut over_class = [0u64; 5];
     for (limreq, progs, sc, kind) in cases {
+        if a.lines.is_none() && started.elapsed().as_secs() >= cap_s {
+            dropped += 1;
+            continue;
+        }
         let r = run_case(limreq, &progs, &sc);
         let v = judge(&progs, &r);
         if !v.ok {
@@ -666,6 +752,8 @@ fn gen(a: &Args) {
         ("cases_with_failed_allocate".into(), failed_alloc.to_string()),
         ("cases_with_panic".into(), panics.to_string()),
         ("cases_with_cas_retry".into(), retries.to_string()),
+        ("cases_dropped_by_time_cap".into(), dropped.to_string()),
+        ("unexpected_waits".into(), ANOMALIES.load(std::sync::atomic::Ordering::Relaxed).to_string()),
     ]);
 }
 
@@ -676,6 +764,8 @@ fn search(a: &Args) {
     let mut tried: u64 = 0;
     let mut seen_class = [0u32; 5];
     let budget = a.budget.min(400_000);
+    let cap_s: u64 = std::env::var("C39_SEARCH_CAP_S").ok().and_then(|v| v.parse().ok()).unwrap_or(150);
+    let started = std::time::Instant::now();
     let mut run_one = |limreq: u64, progs: &Vec<Vec<Op>>, sc: &Vec<usize>, fails: &mut Vec<String>| {
         let r = run_case(limreq, progs, sc);
         let v = judge(progs, &r);
@@ -688,11 +778,20 @@ fn search(a: &Args) {
             }
         }
     };
-    for (limreq, progs, sc, _) in enumerated(false) {
+    // the enumerated shapes in a fixed pseudo-random order (a sample of every family if time runs out)
+    let mut en = enumerated(false);
+    for i in (1..en.len()).rev() {
+        let j = rng.below(i as u64 + 1) as usize;
+        en.swap(i, j);
+    }
+    for (limreq, progs, sc, _) in en {
+        if started.elapsed().as_secs() >= cap_s * 2 / 3 || fails.len() >= 12 {
+            break;
+        }
         run_one(limreq, &progs, &sc, &mut fails);
         tried += 1;
     }
-    while tried < budget {
+    while tried < budget && started.elapsed().as_secs() < cap_s && fails.len() < 12 {
         let (limreq, progs, sc, _) = random_case(&mut rng, true);
         run_one(limreq, &progs, &sc, &mut fails);
         tried += 1;
